@@ -1,3 +1,4 @@
+#![allow(dead_code)]
 //! Small payload universes and reference representations.
 
 use std::collections::{BTreeMap, BTreeSet};
@@ -295,14 +296,41 @@ pub fn exceptions_for(ds: &DataSet) -> routinator::slurm::LocalExceptions {
 }
 
 /// Installs the data set as the next validation result of the history.
+///
+/// Origins and router keys go in as SLURM assertions (hook-free), ASPAs
+/// through the cfg-only `verif_push_point`.
 pub fn install(
     history: &routinator::payload::SharedHistory,
     config: &routinator::Config, ds: &DataSet
 ) -> bool {
-    let report = routinator::payload::ValidationReport::new(config);
-    history.update(
-        report, &exceptions_for(ds), routinator::metrics::Metrics::new()
-    )
+    let (report, exc, metrics) = prepare(config, ds);
+    history.update(report, &exc, metrics)
+}
+
+pub fn prepare(
+    config: &routinator::Config, ds: &DataSet
+) -> (
+    routinator::payload::ValidationReport,
+    routinator::slurm::LocalExceptions,
+    routinator::metrics::Metrics
+) {
+    let mut config = config.clone();
+    config.enable_aspa = true;
+    let report = routinator::payload::ValidationReport::new(&config);
+    let mut metrics = routinator::metrics::Metrics::new();
+    let tal = rpki::repository::tal::TalInfo::from_name("verif".into()).into_arc();
+    metrics.tals.push(routinator::metrics::TalMetrics::new(tal.clone()));
+    if !ds.aspas.is_empty() {
+        report.verif_push_point(
+            tal,
+            rpki::repository::x509::Time::utc(2100, 1, 1, 0, 0, 0),
+            Vec::new(), Vec::new(),
+            ds.aspas.iter().map(|(c, p)| (*c, p.iter().collect::<Vec<_>>()))
+        );
+    }
+    let mut plain = ds.clone();
+    plain.aspas.clear();
+    (report, exceptions_for(&plain), metrics)
 }
 
 /// A configuration for tests that never touch the file system.
